@@ -5,22 +5,6 @@ C16 — tail calls run in constant space (theorems on M-VM given the C07 certifi
 namespace C16
 open QM.VM
 
-/-- Operands a suspended frame has handed over: a `Call` replaced 2 cells (function, argument) by
-the callee's argument; the active `Select` replaced its 1 cell (sources) by the filter's argument. -/
-def handedOver (i : Instr) : Nat := if i = .select then 1 else 2
-
-/-- Stack base (number of cells below the argument) of the frame running on top of the suspended
-frames `rest`, computed from the frames and the annotations alone. -/
-def stackBaseOf (P : Prog) (A : Array Anns) (s0 : Nat) : List Frame → Nat
-  | [] => s0
-  | g :: rest =>
-    match P.functions[g.functionIndex]?, (annsOf A g.functionIndex)[g.counter]? with
-    | some fn, some (some a) =>
-      match fn.instructions[g.counter]? with
-      | some i => stackBaseOf P A s0 rest + a.height - handedOver i
-      | none => 0
-    | _, _ => 0
-
 theorem below_base_eq {P : Prog} {A : Array Anns} {s0 : Nat} {sel : Option SelectState} :
     ∀ {rest : List Frame} {sb lb : Nat}, Below P A s0 sel rest sb lb → sb = stackBaseOf P A s0 rest
   | [], _, _, h => h
@@ -289,5 +273,51 @@ theorem loop_head_invariant {P : Prog} {A : Array Anns} {s0 : Nat} (hA : AllChec
   intro hfi
   subst hfi
   exact hent.sizes_eq h0
+
+/-! ### Examples: a concrete self-tail-recursive function -/
+
+/-- `#'int { | =0 => … | … ^ }`-like loop: compare the argument with constant 0, return it when
+equal, otherwise tail-call itself. -/
+def loopFn : Function :=
+  { instructions := #[.duplicate, .constant 0, .equal 2, .jumpIf 1, .tailCall true], captures := 0, typeId := 0 }
+
+def loopProg : Prog :=
+  { constants := #[.int 0], functions := #[loopFn], tuples := #[0, 0], types := 1, builtins := 0 }
+
+def loopOracle : Oracle :=
+  { isType := fun _ _ => false, valuesEqual := fun a b => a == b, builtin := fun _ _ => .unrecognised, select := .park }
+
+/-- It is certified (hypothesis `AllChecked` of the theorems above). -/
+example : AllChecked loopProg #[inferAnn loopProg 0] := by
+  intro f hf
+  have : f = 0 := by simp [loopProg] at hf; omega
+  subst this
+  decide +kernel
+
+/-- Run `k` `run` transitions of the model. -/
+def runN (P : Prog) (O : Oracle) : Nat → Proc → Option Proc
+  | 0, p => some p
+  | k + 1, p =>
+    match transition P p (.run O) with
+    | some (.ok (p', _)) => runN P O k p'
+    | _ => none
+
+/-- One iteration on argument 3 (≠ 0): five instructions later the process has re-entered the
+function through `TailCall(true)` with the sizes of the first entry (1 frame, 0 locals, 1 cell),
+and so it has after two and after three iterations. -/
+example : (runN loopProg loopOracle 5 (Proc.spawn 0 0 [] (.int 3))).map
+    (fun p => (p.frames.length, p.locals.length, p.stack.length, p.curCounter)) = some (1, 0, 1, 0) := by
+  decide +kernel
+example : (runN loopProg loopOracle 10 (Proc.spawn 0 0 [] (.int 3))).map
+    (fun p => (p.frames.length, p.locals.length, p.stack.length, p.curCounter)) = some (1, 0, 1, 0) := by
+  decide +kernel
+example : (runN loopProg loopOracle 15 (Proc.spawn 0 0 [] (.int 3))).map
+    (fun p => (p.frames.length, p.locals.length, p.stack.length, p.curCounter)) = some (1, 0, 1, 0) := by
+  decide +kernel
+
+/-- The entry state satisfies `AtEntry` on the empty activation (hypothesis `h0` of
+`loop_head_invariant` with `rest = []`, `lb = 0`). -/
+example : AtEntry loopProg #[inferAnn loopProg 0] 0 [] 0 0 (Proc.spawn 0 0 [] (.int 3)) :=
+  ⟨⟨_, loopFn, rfl, rfl, rfl, rfl, rfl, rfl, rfl⟩⟩
 
 end C16
